@@ -112,6 +112,12 @@ CHECKS = {
    text="2-4 Modify sessions with ascending election ids (ties across sessions) and batches over per-session disjoint keys run from real goroutines together with Get readers and Flush callers (override and id-authorised) against one server built with -race. Any race-detector report is a violation (signature = the racing gribigo functions), as is a process death or a hang with gribigo frames parked on a lock/channel. At quiescence the learnt election id must be the maximum announced, the primary a session that announced it, every operation answered with one legal result sequence and, when no Flush overlapped, Get(ALL) must equal the union of the per-session folds of acknowledged operations.",
    note="Trusted: the Go race detector's happens-before analysis on the executions seen; the scheduler chooses the interleavings (sampled, not enumerated).",
    design="DESIGN.md §4 C11"),
+ "C19": dict(
+   technique="property-based testing of the compliance suite itself: rapid-drawn permutations/configurations on a shared conformant server, and a catalogue of single-requirement faulty servers (rewriting proxy over bufconn) with designated tests as oracle",
+   level="exploration",
+   text="Conformant half: every test of compliance.TestSuite must pass on a capturing testing.TB when the whole suite runs over real gRPC (bufconn) on one long-lived reference server in a generated permutation with a generated starting election id and VRF name. Faulty half: 29 single-requirement faults (response/request-rewriting proxy around the reference server, or the opposite server option); each (fault, designated test) pair must fail on a fresh faulty server and pass on a fresh unwrapped server in the same run; designation follows the registry's Requires* flags and test names only.",
+   note="Trusted: the catalogue and designation table in harness/c19/catalogue.go (completeness of the catalogue bounds what the faulty half can see); BusyLoopDelay 1 ms; pairs that wait for the suite's one-minute timeout run in the thorough tier only; a test that shuffles its own operations must fail at least once in 12 attempts.",
+   design="DESIGN.md §4 C19, Appendix A"),
 }
 NOT_YET = {}
 
